@@ -70,6 +70,36 @@ def _case(args):
     return out
 
 
+def _combine_case(args):
+    """usage of two zones combined on the common UTC time line: the sum of two converted series holds, at every UTC timestamp,
+    the sum of what each holds there (each conversion is checked on its own by _case)"""
+    za, zb, start, n, seed = args
+    out = {"case": f"combine|{za}+{zb}|{start}|{n}", "status": "ok", "fails": []}
+    try:
+        rnd = random.Random(seed)
+        conv = []
+        for z in (za, zb):
+            vals = [float(rnd.choice([0, 1, 2, 5, 0.5, 113])) for _ in range(n)]
+            conv.append(ExplainableHourlyQuantities(create_hourly_usage_df_from_list(vals, start), "local").convert_to_utc(SourceObject(pytz.timezone(z), label="tz")))
+        def as_dict(r):
+            idx = [t.tz_convert("UTC").tz_localize(None).to_pydatetime() for t in r.value.index]
+            return dict(zip(idx, [float(x) for x in r.value["value"].values._data]))
+        da, db = as_dict(conv[0]), as_dict(conv[1])
+        want = dict(da)
+        for k, v in db.items(): want[k] = want.get(k, 0.0) + v
+        f = []
+        for label, r in (("a+b", conv[0] + conv[1]), ("b+a", conv[1] + conv[0]), ("sum([a,b])", sum([conv[0], conv[1]]))):
+            got = as_dict(r)
+            if set(got) != set(want): f.append(f"{label}:timestamps-differ:{sorted(set(got) ^ set(want))[:2]}"); continue
+            bad = [k for k in want if not H.close(got[k], want[k], 1e-9, 1e-9)]
+            if bad: f.append(f"{label}:value-at-wrong-timestamp:{len(bad)} hours, first {min(bad)}")
+        out["fails"] = f
+        if f: out["status"] = "fails"
+    except Exception:
+        out["status"] = "harness-error"; out["error"] = traceback.format_exc()[-700:]
+    return out
+
+
 def transitions_between(tz, lo, hi):
     if not hasattr(tz, "_utc_transition_times"): return []
     return [t for t in tz._utc_transition_times if lo <= t <= hi]
@@ -94,6 +124,16 @@ def run(tier, seed, procs=16):
         items.append((z, datetime(2025, 6, 1), 24, seed))
         items.append((z, datetime(2025, 1, 1, 5), 7, seed))
     res = H.run_parallel(_case, items, procs)
+    # zones combined on one UTC time line: same offsets at both ends of the period but different change dates, identical calendars,
+    # a zone without changes, fractional offsets; whole years and short windows
+    pairs = [("Europe/Paris", "Africa/Casablanca"), ("America/New_York", "America/Havana"), ("Europe/Paris", "Europe/Berlin"), ("Europe/Paris", "Africa/Tunis"),
+             ("Australia/Adelaide", "Asia/Kolkata"), ("America/St_Johns", "America/Sao_Paulo"), ("Europe/London", "Asia/Kathmandu"), ("UTC", "Pacific/Chatham")]
+    citems = []
+    for za, zb in pairs:
+        for yr in (2024, 2025) if tier == "thorough" else (2024,):
+            citems.append((za, zb, datetime(yr, 1, 1), 24 * (366 if yr == 2024 else 365), seed))
+        citems.append((za, zb, datetime(2025, 3, 28), 96, seed)); citems.append((za, zb, datetime(2025, 10, 24), 96, seed))
+    res += H.run_parallel(_combine_case, citems, procs)
     viol, samples, nontrivial = [], [], set()
     for r in res:
         if r["status"] == "harness-error": raise RuntimeError("bounded harness error: " + r.get("error", ""))
@@ -107,4 +147,5 @@ def run(tier, seed, procs=16):
             "rule": "one case = (IANA zone, local start, length): a local hourly series straddling a UTC-offset transition of the zone (or an ordinary period); "
                     "result compared with an oracle computed from the pytz transition tables: strictly increasing unique UTC index, total preserved, every value at local time minus the offset in force, repeated/skipped hours merged",
             "samples": samples, "violations": viol, "exhaustive": tier == "thorough",
+            "combined": "8 zone pairs (same end offsets / different change dates, identical calendars, no-DST, fractional offsets) over whole years and 96-hour windows: a+b, b+a and sum() vs the per-timestamp sum",
             "bound": f"{len(zones)} zones ({'all common IANA zones, every transition 2010-2030' if tier == 'thorough' else '15 fixed + 25 sampled, 4 sampled transitions each'}), series of 7 to 38 hours"}
